@@ -108,7 +108,15 @@ def evaluate_at(ctx: Ctx, results: List[Any], gts: List[Any], mode: MatchingMode
         return dict(t=t, correct=correct, n_tp=len(tp), n_fn=len(fn), aps=[], aphs=[], map=float("inf"), maph=float("inf"))
     ngt = {l: sum(1 for g in gts if g.semantic_label.label == l) for l in LABELS}
     m = Map(object_results_dict=shared, num_ground_truth_dict=ngt, target_labels=LABELS, matching_mode=mode, matching_threshold_list=thr_list)
-    return dict(t=t, correct=correct, n_tp=len(tp), n_fn=len(fn), aps=[a.ap for a in m.aps], aphs=[a.ap for a in m.aphs], map=m.map, maph=m.maph)
+    out = dict(t=t, correct=correct, n_tp=len(tp), n_fn=len(fn), aps=[a.ap for a in m.aps], aphs=[a.ap for a in m.aphs], map=m.map, maph=m.maph)
+    # the same results against a ground-truth count taken elsewhere (after a stricter point or range filter: fewer ground
+    # truths than the results were matched against). The count is fixed along the chain, so the scores stay monotone.
+    if (len(results) + len(gts)) % 3 == 0:
+        low = {l: (n if n <= 1 else max(1, n // 2)) for l, n in ngt.items()}
+        m2 = Map(object_results_dict=shared, num_ground_truth_dict=low, target_labels=LABELS, matching_mode=mode, matching_threshold_list=thr_list)
+        ctx.count("C08.reduced_count_maps")
+        out.update(aps_low=[a.ap for a in m2.aps], aphs_low=[a.ap for a in m2.aphs], map_low=m2.map, maph_low=m2.maph)
+    return out
 
 
 def chain_on_results(ctx: Ctx, results: List[Any], gts: List[Any], mode: MatchingMode, chain: List[float], info: Dict[str, Any]) -> int:
@@ -155,17 +163,19 @@ def chain_on_results(ctx: Ctx, results: List[Any], gts: List[Any], mode: Matchin
             ctx.count("C08.count_pairs_checked")
             ctx.check(cur["n_tp"] >= prev["n_tp"], "C08/tp_count_decreases_when_loosened", dict(info, tight=prev["t"], loose=t, tp_tight=prev["n_tp"], tp_loose=cur["n_tp"]), tap)
             ctx.check(cur["n_fn"] <= prev["n_fn"], "C08/fn_count_increases_when_loosened", dict(info, tight=prev["t"], loose=t, fn_tight=prev["n_fn"], fn_loose=cur["n_fn"]), tap)
-            for a, b, name in ((prev["aps"], cur["aps"], "ap"), (prev["aphs"], cur["aphs"], "aph")):
+            for a, b, name in ((prev["aps"], cur["aps"], "ap"), (prev["aphs"], cur["aphs"], "aph"), (prev.get("aps_low", []), cur.get("aps_low", []), "ap"), (prev.get("aphs_low", []), cur.get("aphs_low", []), "aph")):
                 for lab, x, y in zip(LABELS, a, b):
                     if math.isinf(x) or math.isinf(y):
                         continue
                     ctx.count("C08.ap_pairs_checked")
                     ctx.check(y >= x - 1e-12, f"C08/{name}_decreases_when_loosened", dict(info, label=str(lab), tight=prev["t"], loose=t, value_tight=x, value_loose=y), tap)
-            for name in ("map", "maph"):
+            for name in ("map", "maph", "map_low", "maph_low"):
+                if name not in prev or name not in cur:
+                    continue
                 x, y = prev[name], cur[name]
                 if not (math.isinf(x) or math.isinf(y)):
                     ctx.count("C08.map_pairs_checked")
-                    ctx.check(y >= x - 1e-12, f"C08/{name}_decreases_when_loosened", dict(info, tight=prev["t"], loose=t, value_tight=x, value_loose=y), tap)
+                    ctx.check(y >= x - 1e-12, f"C08/{name.replace('_low', '')}_decreases_when_loosened", dict(info, tight=prev["t"], loose=t, value_tight=x, value_loose=y, reduced_ground_truth_count=name.endswith("_low")), tap)
         prev = cur
     return flips
 
